@@ -73,18 +73,15 @@ def _registry(draw) -> dict:
         reg[str(node)] = {
             "node_id": node, "node_type": 17, "protocol_version": "2.0", "sketch_name": "", "sketch_version": "",
             "battery_level": 0, "heartbeat": 0, "sleeping": draw(st.booleans()), "children": children,
-            "reboot": draw(st.sampled_from((False, False, True))),
+            "reboot": draw(st.sampled_from((False, True))),
         }
     return reg
 
 
 def strategy(tier: str):
-    op = st.one_of(
-        _lines().map(lambda l: ["rx", l]),
-        _lines().map(lambda l: ["rx", l]),
-        _lines().map(lambda l: ["rx", l]),
-        _lines().map(lambda l: ["rx", l]),
-        st.builds(lambda n, v: ["flag", n, "reboot", v], st.sampled_from((1, 2, 3)), st.booleans()),
+    op = gen.weighted(
+        (8, _lines().map(lambda l: ["rx", l])),
+        (1, st.builds(lambda n, v: ["flag", n, "reboot", v], st.sampled_from((1, 2, 3)), st.booleans())),
     )
     return st.fixed_dictionaries(
         {
@@ -94,6 +91,7 @@ def strategy(tier: str):
             "epoch": st.one_of(st.sampled_from((0, 1, 86399, 1_700_000_000, 2_000_000_000)), st.integers(0, 4_000_000_000)),
             "registry": _registry(),
             "ops": st.lists(op, min_size=5, max_size=20),
+            "listen_mode": st.sampled_from(("fresh", "persistent")),
         }
     )
 
